@@ -63,7 +63,7 @@ def check_arms(ctx):
     wj = ctx.sites(body, R.call("DiskIO::write_allocation_journal"), inst, exact=1)
     bw = ctx.sites(body, R.call("DiskIO::batch_write_bytes"), inst, exact=1)
     cj = ctx.sites(body, R.call("DiskIO::clear_allocation_journal"), inst, exact=1)
-    fbo = ctx.sites(body, R.call("write_buffer::failed_batch_outcome"), inst, floor=5)
+    fbo = ctx.sites(body, R.call("write_buffer::failed_batch_outcome"), inst, floor=3)   # one per failing step at least; the path rules below decide
     rets = body.return_nodes()
     for nm, nodes in (("write_allocation_journal", wj), ("batch_write_bytes", bw), ("clear_allocation_journal", cj)):
         edges = R.guard_edges_for_call(body, nodes, "Err")
@@ -76,7 +76,7 @@ def check_arms(ctx):
             ctx.check(not bad, inst, "FOLLOW", body.path, "Err edge of %s leads to failed_batch_outcome" % nm, body.where(sw),
                       None if not bad else {"witness": R.witness(body, ps, r.get(bad[0]))})
     # IndeterminateWrite => BatchFailure{indeterminate: true}
-    agg = ctx.sites(body, R.aggregate("write_buffer::BatchFailure"), inst, floor=5)
+    agg = ctx.sites(body, R.aggregate("write_buffer::BatchFailure"), inst, floor=3)
     for nm, nodes in (("write_allocation_journal", wj), ("batch_write_bytes", bw), ("clear_allocation_journal", cj)):
         keys = A.call_roots(body, nodes)
 
@@ -219,18 +219,34 @@ def check_contain(ctx):
     inst = "C09.contain/retire_extents"
     body = ctx.fn("DiskIO::retire_extents", inst)
     if body is not None:
-        pw = ctx.sites(body, R.call("DiskIO::poison_writes"), inst, floor=3)
+        pw = R.call("DiskIO::poison_writes")(body)
+
+        def poisoned_by_map_err(sw):
+            """`step.map_err(|e| self.poison_writes(e))?`: the error is poisoned inside the closure before it is branched on"""
+            raw = A.switch_info(body, sw).raw
+            for x in raw.walk():
+                if x.k == "call" and path_matches(x.extra, "Result::map_err") and len(x.a) > 1:
+                    for y in x.a[1].walk():
+                        if y.k == "agg" and y.extra in ctx.prog.bodies and (ctx.prog.reaches_name(y.extra, "DiskIO::poison_writes")):
+                            return True
+            return False
+        n_poison = len(pw)
         for nm in ("DiskIO::write_allocation_journal", "DiskIO::retire_extents_unjournaled", "DiskIO::clear_allocation_journal"):
             nodes = ctx.sites(body, R.call(nm), inst, exact=1)
             edges = R.guard_edges_for_call(body, nodes, "Err")
             ctx.check(len(edges) >= 1, inst, "GUARD", body.path, "Err outcome of %s is handled" % nm.split("::")[-1], body.where(nodes[0]) if nodes else None)
             for (sw, l) in edges:
+                if poisoned_by_map_err(sw):
+                    n_poison += 1
+                    ctx.ok(inst, "FOLLOW", body.path, "a failed %s poisons the device" % nm.split("::")[-1], body.where(sw))
+                    continue
                 r, ps = A.reach(body, edge_targets(body, sw, l), blocked_nodes=set(pw))
                 bad = [x for x in body.return_nodes() if x in r]
                 ctx.check(not bad, inst, "FOLLOW", body.path, "a failed %s poisons the device" % nm.split("::")[-1], body.where(sw))
                 r, ps = A.reach(body, edge_targets(body, sw, l))
                 bad = [x for x in A.ok_nodes(body) + V.W_REACHING(body) if x in r]
                 ctx.check(not bad, inst, "GUARD", body.path, "no further write / Ok return after a failed %s" % nm.split("::")[-1], body.where(sw))
+        ctx.check(n_poison >= 3, inst, "anchor", body.path, "each of the three steps poisons on failure (found %d)" % n_poison, None)
 
     inst = "C09.contain/process_deletions"
     body = ctx.fn("write_buffer::process_deletions", inst)
